@@ -31,6 +31,11 @@ def pageLoop (offset endc : Nat) (countTotal : Bool) :
       if !countTotal then (acc, k, count) else pageLoop offset endc countTotal rest count acc k
     else pageLoop offset endc countTotal rest count acc nk
 
+/-- key of the first entry of a list ([] when there is none). -/
+def headKey : List (Bytes × Val) → Bytes
+  | (k, _) :: _ => k
+  | [] => []
+
 /-- `query.Paginate(prefixStore, req, onResult)`; `all` = the prefix store's entries in key order with
     the prefix stripped.  `none` request = nil pointer. -/
 def paginate (all : List (Bytes × Val)) (rq : Option PageReq) : R PageRes := do
@@ -51,7 +56,7 @@ def paginate (all : List (Bytes × Val)) (rq : Option PageReq) : R PageRes := do
     else pure (if keyed then fromKey else all)
   if keyed then
     let page := items.take limit
-    let nk := match items.drop limit with | (k, _) :: _ => k | [] => []
+    let nk := headKey (items.drop limit)
     pure { items := page.map (·.2), nextKey := nk, total := 0 }
   else
     let endc := u64 (rq.offset + limit)
